@@ -6,6 +6,21 @@ use crate::engine::{Avx2, Ssse3};
 #[cfg(target_arch = "aarch64")]
 use crate::engine::Neon;
 
+// Verification builds: runtime detection is ANDed with a settable mask
+// (under a model checker, which cannot execute `cpuid`, the mask alone decides).
+#[cfg(feature = "verif-hooks")]
+#[cfg(any(target_arch = "x86", target_arch = "x86_64"))]
+macro_rules! is_x86_feature_detected {
+    ("avx2") => {
+        crate::verif_hooks::feature_mask() & crate::verif_hooks::ISA_AVX2 != 0
+            && (cfg!(kani) || std::is_x86_feature_detected!("avx2"))
+    };
+    ("ssse3") => {
+        crate::verif_hooks::feature_mask() & crate::verif_hooks::ISA_SSSE3 != 0
+            && (cfg!(kani) || std::is_x86_feature_detected!("ssse3"))
+    };
+}
+
 // ======================================================================
 // DefaultEngine - PUBLIC
 
